@@ -258,9 +258,9 @@ Definition suggest_needle (d : string) : option string :=
   | None => None
   end.
 
-(* original: pattern.replace('"', '\\"') inside "..." *)
-Definition quote_orig (p : string) : string :=
-  s1 DQ ++ cmap (fun c => if ceq c DQ then String BSL (s1 DQ) else s1 c) p ++ s1 DQ.
+(* original: '"' + pattern.replace('"', '\\"') + '"' *)
+Definition qo_char (c : ascii) : string := if ceq c DQ then String BSL (s1 DQ) else s1 c.
+Definition quote_orig (p : string) : string := String DQ (cmap qo_char p ++ s1 DQ).
 
 (* repaired: json.dumps(needle, ensure_ascii=False) *)
 Definition hexdigit (n : N) : ascii := if N.ltb n 10 then chr (48 + n) else chr (87 + n).
@@ -272,17 +272,21 @@ Definition json_char (c : ascii) : string :=
   else if N.eqb n 8 then "\b" else if N.eqb n 12 then "\f"
   else if N.ltb n 32 then "\u00" ++ String (hexdigit (N.div n 16)) (s1 (hexdigit (N.modulo n 16)))
   else s1 c.
-Definition quote_fixed (p : string) : string := s1 DQ ++ cmap json_char p ++ s1 DQ.
+Definition quote_fixed (p : string) : string := String DQ (cmap json_char p ++ s1 DQ).
 
 Inductive variant := Orig | Fixed.
+Definition quote (v : variant) (needle : string) : string :=
+  match v with Orig => quote_orig needle | Fixed => quote_fixed needle end.
 
-(* suggest_merchants_rule(name, needle, tags) *)
+(* suggest_merchants_rule(name, needle, tags): the lines of the f-string, [q] = the quoted needle *)
+Definition rule_lines (name q : string) (tags : list string) : list string :=
+  [ String (chr 91) (name ++ "]");
+    "match: contains(" ++ q ++ ")";
+    "category: CATEGORY";
+    "subcategory: SUBCATEGORY" ] ++
+  (match tags with [] => [] | _ => ["tags: " ++ sconcat ", " tags] end).
 Definition rule_text (v : variant) (name needle : string) (tags : list string) : string :=
-  "[" ++ name ++ "]" ++ s1 LF ++
-  "match: contains(" ++ (match v with Orig => quote_orig needle | Fixed => quote_fixed needle end) ++ ")" ++ s1 LF ++
-  "category: CATEGORY" ++ s1 LF ++
-  "subcategory: SUBCATEGORY" ++
-  (match tags with [] => "" | _ => s1 LF ++ "tags: " ++ sconcat ", " tags end).
+  sconcat (s1 LF) (rule_lines name (quote v needle) tags).
 
 (* what the json output of cmd_discover passes as the needle *)
 Definition needle_of (v : variant) (d : string) : option string :=
